@@ -310,15 +310,18 @@ Definition mk_out (st : state) (fr : list eframe) (rad : N) (spin : bool) : out 
      o_macidx := st_macidx st; o_avail := st_avail st; o_alloc := st_alloc st |}.
 Definition noop (st : state) : state * out * list N := (st, mk_out st [] 0 false, []).
 
-(* CreateSession's search: nextID, nextID+1, ... skipping 0 after the uint16 wrap. Among
-   [length sessions + 1] consecutive candidates one is free unless all 65535 ids are taken, in which
-   case the Go loop never ends. *)
+(* CreateSession's search: nextID, nextID+1, ... skipping 0 after the uint16 wrap. CreateSession
+   first refuses when 65535 sessions are live; below that, among [length sessions + 1] consecutive
+   candidates one is free, so the fuel is never exhausted on a table with distinct ids ([o_spin]
+   reports exhaustion instead of inventing an id). *)
 Fixpoint find_id (fuel : nat) (l : list sess) (cand : N) : option N :=
   if negb (existsb (fun s => s_id s =? cand) l) then Some cand
   else match fuel with
        | O => None
        | S k => let n := u16 (cand + 1) in find_id k l (if n =? 0 then 1 else n)
        end.
+
+Definition blen_s (l : list sess) : N := N.of_nat (length l).
 
 Definition handle_padi (c : config) (st : state) (src : N) (tags : list (N * bytes)) : state * out * list N :=
   let mismatch := match find_tag tags TagServiceName with
@@ -334,6 +337,8 @@ Definition handle_padr (c : config) (st : state) (src : N) (tags : list (N * byt
   match find_tag tags TagACCookie with
   | None => noop st
   | Some _ =>                                  (* the cookie's value is not compared with anything *)
+      if 65535 <=? blen_s (st_sessions st) then noop st        (* "session table full" error: logged only *)
+      else
       match find_id (length (st_sessions st)) (st_sessions st) (st_next st) with
       | None => (st, mk_out st [] 0 true, [])
       | Some id =>
@@ -343,7 +348,7 @@ Definition handle_padr (c : config) (st : state) (src : N) (tags : list (N * byt
           let r := lcp_request c s0 in          (* go startLCPNegotiation(session) *)
           let st' := {| st_sessions := insert_sess (fst r) (st_sessions st);
                         st_macidx := assoc_set (st_macidx st) src id;
-                        st_next := u16 (id + 1);
+                        st_next := (let n := u16 (id + 1) in if n =? 0 then 1 else n);
                         st_ninst := st_ninst st + 1;
                         st_avail := st_avail st; st_alloc := st_alloc st |} in
           (st', mk_out st' [EDisc src CodePADS id ([(TagServiceName, c_service c)] ++ hu); snd r] 0 false, [])
@@ -365,7 +370,7 @@ Definition handle_padt (g : gates) (c : config) (st : state) (src sid : N) : sta
                        | Some ip => (st_avail st ++ [ip], assoc_del (st_alloc st) (s_inst s))
                        | None => (st_avail st, st_alloc st) end in
       let st' := drop_session st s av al in
-      (st', mk_out st' [] 0 false, if s_mac s =? src then [] else [402])
+      (st', mk_out st' [] 0 false, if (s_mac s =? src) || g_owner g then [] else [402])
   end.
 
 Definition handle_session (g : gates) (c : config) (st : state) (src sid proto : N) (payload : bytes) (oracle : N)
@@ -383,8 +388,8 @@ Definition handle_session (g : gates) (c : config) (st : state) (src sid proto :
                  | None => drop_session st s (r_avail r) (r_alloc r)      (* LCP terminate: the address stays allocated *)
                  end in
       (st', mk_out st' (r_frames r) (r_rad r) false,
-       (if s_mac s =? src then [] else [402]) ++
-       (if (proto =? ProtoIPCP) && negb (s_auth s) then [401] else []))
+       (if (s_mac s =? src) || g_owner g then [] else [402]) ++
+       (if (proto =? ProtoIPCP) && negb (s_auth s) && negb (g_auth g) then [401] else []))
   end.
 
 Definition set_mac (m : N) (s : sess) : sess :=
